@@ -124,6 +124,11 @@ type c12Srv struct {
 	PkjwtAlgs       []string // empty: the default
 	AuthDetails     bool
 	AuthDetailTypes []string
+	// where the provider is mounted (not part of Model/Dcr.v's feature set: the registration URI is abstract
+	// there, JRegUri = the advertised registration_endpoint + "/" + client id; Model/DcrUri.v and suite c12uri
+	// have the strings): WithPathPrefix / WithDCREndpoint
+	Prefix  string `json:",omitempty"`
+	DcrPath string `json:",omitempty"`
 }
 
 const gCC, gAC, gImpl, gRefresh, gCiba = "client_credentials", "authorization_code", "implicit", "refresh_token", "urn:openid:params:grant-type:ciba"
@@ -380,11 +385,13 @@ type c12World struct {
 	hook    Hook
 	nmal    int
 	njti    int
+	regEP   string            // registration_endpoint of the discovery document the provider serves
+	lastURI map[string]string // client_id -> the registration_client_uri last returned for it, followed verbatim
 }
 
 func newC12World(srv c12Srv, flavour string) (*c12World, error) {
 	c12Init()
-	w := &c12World{srv: srv, str2h: map[string]Handle{}, h2str: map[Handle]string{}, sent: map[string]bool{}}
+	w := &c12World{srv: srv, str2h: map[string]Handle{}, h2str: map[Handle]string{}, sent: map[string]bool{}, lastURI: map[string]string{}}
 	w.stores = NewStores(flavour)
 	keys := goidc.JSONWebKeySet{Keys: []goidc.JSONWebKey{{Key: c12Srvkey, KeyID: "srv-es256", Algorithm: "ES256", Use: "sig"}}}
 	opts := []provider.ProviderOption{
@@ -396,6 +403,12 @@ func newC12World(srv c12Srv, flavour string) (*c12World, error) {
 	}
 	if srv.Rotation {
 		opts = append(opts, provider.WithDCRTokenRotation())
+	}
+	if srv.Prefix != "" {
+		opts = append(opts, provider.WithPathPrefix(srv.Prefix))
+	}
+	if srv.DcrPath != "" {
+		opts = append(opts, provider.WithDCREndpoint(srv.DcrPath))
 	}
 	for _, g := range srv.Grants {
 		switch g {
@@ -518,7 +531,30 @@ func newC12World(srv c12Srv, flavour string) (*c12World, error) {
 		return nil, err
 	}
 	w.handler = p.Handler()
+	// registrations go to the registration_endpoint the provider ADVERTISES
+	rec := httptest.NewRecorder()
+	w.handler.ServeHTTP(rec, httptest.NewRequest("GET", issuer+srv.Prefix+"/.well-known/openid-configuration", nil))
+	var doc map[string]any
+	_ = json.Unmarshal(rec.Body.Bytes(), &doc)
+	w.regEP, _ = doc["registration_endpoint"].(string)
+	if w.regEP == "" {
+		w.regEP = issuer + srv.Prefix + orDefault([]string{srv.DcrPath}, "/register")[0]
+	}
 	return w, nil
+}
+
+// the abstract value JRegUri h stands for: advertised registration endpoint + "/" + client id
+func (w *c12World) regBase() string { return w.regEP + "/" }
+
+// where a read / update / delete of the client goes: the registration_client_uri the server last
+// returned for it, VERBATIM; for a client no response named (unknown, foreign to this history) the
+// advertised endpoint + "/" + id
+func (w *c12World) target(cid Handle) string {
+	id := w.concrete(cid)
+	if u, ok := w.lastURI[id]; ok && u != "" {
+		return u
+	}
+	return w.regBase() + id
 }
 
 type rt404 struct{}
@@ -564,8 +600,6 @@ func (w *c12World) concrete(h Handle) string {
 	return s
 }
 
-const regBase = issuer + "/register/"
-
 func (w *c12World) renderVal(v JV) string {
 	q := func(s string) string { b, _ := json.Marshal(s); return string(b) }
 	switch v.T {
@@ -577,7 +611,7 @@ func (w *c12World) renderVal(v JV) string {
 	case "cred":
 		return q(w.concrete(v.H))
 	case "uri":
-		return q(regBase + w.concrete(v.H))
+		return q(w.regBase() + w.concrete(v.H))
 	case "bool":
 		return cB(v.B)
 	case "num":
@@ -624,8 +658,8 @@ func (w *c12World) absStr(key, s string) JV {
 	if h, ok := w.str2h[s]; ok {
 		return jCred(h)
 	}
-	if strings.HasPrefix(s, regBase) {
-		if h, ok := w.str2h[strings.TrimPrefix(s, regBase)]; ok {
+	if strings.HasPrefix(s, w.regBase()) {
+		if h, ok := w.str2h[strings.TrimPrefix(s, w.regBase())]; ok {
 			return jURI(h)
 		}
 	}
@@ -751,17 +785,17 @@ func (w *c12World) exec(o DOp) (obs DObs) {
 	}
 	switch o.Kind {
 	case "Create":
-		req = httptest.NewRequest("POST", "/register", body())
+		req = httptest.NewRequest("POST", w.regEP, body())
 		req.Header.Set("Content-Type", "application/json")
 	case "Update":
-		req = httptest.NewRequest("PUT", "/register/"+w.concrete(o.Cid), body())
+		req = httptest.NewRequest("PUT", w.target(o.Cid), body())
 		req.Header.Set("Content-Type", "application/json")
 		w.authHeader(o.Tok, req)
 	case "Read":
-		req = httptest.NewRequest("GET", "/register/"+w.concrete(o.Cid), nil)
+		req = httptest.NewRequest("GET", w.target(o.Cid), nil)
 		w.authHeader(o.Tok, req)
 	case "Delete":
-		req = httptest.NewRequest("DELETE", "/register/"+w.concrete(o.Cid), nil)
+		req = httptest.NewRequest("DELETE", w.target(o.Cid), nil)
 		w.authHeader(o.Tok, req)
 	case "UseSecret":
 		form := url.Values{"grant_type": {"client_credentials"}}
@@ -769,7 +803,7 @@ func (w *c12World) exec(o DOp) (obs DObs) {
 			form.Set("client_id", w.concrete(o.Cid))
 			form.Set("client_secret", w.concrete(o.Secret))
 		}
-		req = httptest.NewRequest("POST", "/token", strings.NewReader(form.Encode()))
+		req = httptest.NewRequest("POST", w.srv.Prefix+"/token", strings.NewReader(form.Encode()))
 		req.Header.Set("Content-Type", "application/x-www-form-urlencoded")
 		if o.Basic {
 			req.SetBasicAuth(w.concrete(o.Cid), w.concrete(o.Secret))
@@ -790,7 +824,7 @@ func (w *c12World) exec(o DOp) (obs DObs) {
 			form.Set("client_assertion_type", "urn:ietf:params:oauth:client-assertion-type:jwt-bearer")
 			form.Set("client_assertion", c12SecretJWT(w.concrete(o.Cid), w.concrete(o.Secret), fmt.Sprintf("jti-%d-%d", w.step, w.njti)))
 		}
-		req = httptest.NewRequest("POST", c12EpPath[o.Ep], strings.NewReader(form.Encode()))
+		req = httptest.NewRequest("POST", w.srv.Prefix+c12EpPath[o.Ep], strings.NewReader(form.Encode()))
 		req.Header.Set("Content-Type", "application/x-www-form-urlencoded")
 		if o.Sm == "basic" {
 			req.SetBasicAuth(w.concrete(o.Cid), w.concrete(o.Secret))
@@ -826,6 +860,14 @@ func (w *c12World) exec(o DOp) (obs DObs) {
 		d, ok := w.absDoc(raw)
 		if !ok {
 			return DObs{Kind: "Err", Status: st, Code: "unparsable"}
+		}
+		{
+			var m map[string]any
+			_ = json.Unmarshal(raw, &m)
+			id, _ := m["client_id"].(string)
+			if u, isStr := m["registration_client_uri"].(string); isStr && id != "" {
+				w.lastURI[id] = u
+			}
 		}
 		if o.Kind == "Create" {
 			// whatever the response says, the client that now exists is the one minted by this operation
@@ -2067,6 +2109,19 @@ func runC12History(seed int64, k int, fam string) c12Case {
 		flavour, rotation = []string{"copy", "alias"}[(k/4)%2], (k/8)%2 == 0
 		srv = c12DetailSrv(k, rotation)
 	}
+	// where the provider is mounted: a dimension of EVERY family, by history index (the same for every
+	// seed), crossed with storage flavour and rotation: default / path prefix / renamed registration
+	// endpoint / both.  Registrations go to the advertised registration_endpoint and every read, update
+	// and delete follows the registration_client_uri last returned for the client verbatim.
+	layout := (k / 4) % 4
+	switch fam {
+	case "endpoints":
+		layout = (k / 16) % 4
+	case "details":
+		layout = (k + k/4) % 4
+	}
+	srv.Prefix = []string{"", "/auth", "", "/tenants/acme"}[layout]
+	srv.DcrPath = []string{"", "", "/clients", "/connect/register"}[layout]
 	w, err := newC12World(srv, flavour)
 	if err != nil {
 		panic(fmt.Sprintf("provider.New refused a generated feature set: %v (%+v)", err, srv))
@@ -2093,7 +2148,8 @@ func runC12History(seed int64, k int, fam string) c12Case {
 	g.dist["family:"+fam]++
 	g.dist[fmt.Sprintf("rotation=%v", rotation)]++
 	g.dist["storage:"+flavour]++
-	return c12Case{Note: fmt.Sprintf("%s#%d/%s/rotation=%v", fam, k, flavour, rotation), Flavour: flavour, Spec: srv, Ops: g.ops, Obs: g.obs, dist: g.dist}
+	g.dist[fmt.Sprintf("mounted: prefix=%q registration endpoint=%q", srv.Prefix, srv.DcrPath)]++
+	return c12Case{Note: fmt.Sprintf("%s#%d/%s/rotation=%v/prefix=%s/dcr=%s", fam, k, flavour, rotation, srv.Prefix, srv.DcrPath), Flavour: flavour, Spec: srv, Ops: g.ops, Obs: g.obs, dist: g.dist}
 }
 
 func (c c12Case) coq() string { return c.render(false) }
